@@ -414,10 +414,12 @@ fn run(name: &str, j: &J) -> Result<bool, String> {
                 let (ia, ma) = build(a); let (ib, mb) = build(b);
                 match raw_pts(&ia) { None => return Some(format!("{:?} builds an unsorted list {}", a, ia)), Some(m) if m != ma => return Some(format!("{:?} builds {} (points {:#b} expected {:#b})", a, ia, m, ma)), _ => {} }
                 let u = ia.clone().union(ib.clone());
-                if raw_pts(&u) != Some(ma | mb) { return Some(format!("{} union {} = {}", ia, ib, u)); }
+                // the property asks for over-approximations (and a well-formed list): the union contains both operands, the
+                // intersection contains the common points, and a positive `is_subset_of` is a real inclusion
+                match raw_pts(&u) { None => return Some(format!("{} union {} = {} is not sorted and disjoint", ia, ib, u)), Some(m) if m & (ma | mb) != (ma | mb) => return Some(format!("{} union {} = {}", ia, ib, u)), _ => {} }
                 let n = ia.clone().intersection(ib.clone());
-                if raw_pts(&n) != Some(ma & mb) { return Some(format!("{} intersection {} = {}", ia, ib, n)); }
-                if ia.is_subset_of(&ib) != (ma & !mb == 0) { return Some(format!("{} is_subset_of {} = {}", ia, ib, ia.is_subset_of(&ib))); }
+                match raw_pts(&n) { None => return Some(format!("{} intersection {} = {} is not sorted and disjoint", ia, ib, n)), Some(m) if m & (ma & mb) != (ma & mb) => return Some(format!("{} intersection {} = {}", ia, ib, n)), _ => {} }
+                if ia.is_subset_of(&ib) && (ma & !mb != 0) { return Some(format!("{} is_subset_of {} = true", ia, ib)); }
                 if pts(&ia) != ma { return Some(format!("contains() of {} disagrees with its points", ia)); }
                 None
             }
@@ -485,11 +487,14 @@ fn run(name: &str, j: &J) -> Result<bool, String> {
                     if h.referred_fields.first().map(|s| s.as_str()) != Some(carried) || h.referred_fields_names.first().map(|s| s.as_str()) != Some(PRIVACY_UNIT) {
                         return Some(format!("hop {} carries column {:?} of {} as {:?}; the next hop joins on {:?}", k, h.referred_fields.first(), steps[k].1, h.referred_fields_names.first(), carried));
                     }
-                    if let Some(w) = weight {
-                        if h.referred_fields.len() != 2 || h.referred_fields_names.get(1).map(|s| s.as_str()) != Some(PRIVACY_UNIT_WEIGHT) || (last && h.referred_fields[1] != w) {
+                    // the weight column lives in the table that owns the unit: only the LAST hop carries it (an intermediate hop
+                    // carries the next key only — fix adbc5fb)
+                    match (weight, last) {
+                        (Some(w), true) => if h.referred_fields.len() != 2 || h.referred_fields_names.get(1).map(|s| s.as_str()) != Some(PRIVACY_UNIT_WEIGHT) || h.referred_fields[1] != w {
                             return Some(format!("hop {} weight columns {:?} as {:?}", k, h.referred_fields, h.referred_fields_names));
-                        }
-                    } else if h.referred_fields.len() != 1 { return Some(format!("hop {} carries {:?}", k, h.referred_fields)); }
+                        },
+                        _ => if h.referred_fields.len() != 1 { return Some(format!("hop {} carries {:?}", k, h.referred_fields)); },
+                    }
                 }
                 None
             };
